@@ -1192,7 +1192,49 @@ def m_dec_round_default(ex, st, a, c, m):
 
 
 def m_dec_round_dp(ex, st, a, c, m):
-    return m_dec_round(ex, st, [a[0], a[1], Adt('RoundingStrategy', 'MidpointNearestEven', [])], c, m)
+    return m_dec_round_dp_strategy(ex, st, [a[0], a[1], Adt('RoundingStrategy', 'MidpointNearestEven', [])], c, m)
+
+
+def _round_int(n, unit, variant):
+    """n rounded to a multiple of the positive python int `unit` (n >= 0), as a z3 term"""
+    if unit == 1:
+        return n
+    if variant in ('MidpointAwayFromZero', 'RoundHalfUp'):
+        q = (2 * n + unit) / (2 * unit)
+    elif variant in ('MidpointTowardZero', 'RoundHalfDown'):
+        q = (2 * n + unit - 1) / (2 * unit)
+    elif variant in ('ToZero', 'RoundDown', 'ToNegativeInfinity'):
+        q = n / unit
+    elif variant in ('AwayFromZero', 'RoundUp', 'ToPositiveInfinity'):
+        q = (n + unit - 1) / unit
+    elif variant in ('MidpointNearestEven', 'BankersRounding'):
+        up = (2 * n + unit) / (2 * unit)
+        q = z3.If(z3.And((2 * n + unit) % (2 * unit) == 0, up % 2 == 1), up - 1, up)
+    else:
+        raise Unsupported('rounding strategy %s' % variant)
+    return q * unit
+
+
+def m_dec_round_dp_strategy(ex, st, a, c, m):
+    """round_dp / round_dp_with_strategy to a (possibly symbolic) number of places, for values over a constant power-of-ten denominator"""
+    x = dec(ex, a[0])
+    n, d, inexact = x.fields[:3]
+    dp = z3.simplify(a[1]) if isinstance(a[1], z3.ExprRef) else z3.IntVal(a[1])
+    strat = a[2]
+    if z3.is_int_value(dp) and dp.as_long() == 0:
+        return m_dec_round(ex, st, a, c, m)
+    if inexact or not z3.is_int_value(d):
+        raise Unsupported('round_dp of an inexact / symbolic-denominator value')
+    dv = d.as_long()
+    k = len(str(dv)) - 1
+    if 10 ** k != dv:
+        raise Unsupported('round_dp over denominator %d' % dv)
+    iv = ex.interval(dp)
+    lo, hi = (max(iv[0], 0), min(iv[1], 28)) if iv is not None else (0, 28)
+    t = n                                      # dp >= k: nothing to round
+    for places in range(min(hi, k - 1), lo - 1, -1):
+        t = z3.If(dp == places, _round_int(n, 10 ** (k - places), strat.variant), t)
+    return [(n >= 0, Dec(t, d)), (n < 0, Opaque('OOB', 'rounding a negative value'))]
 
 
 def m_dec_trunc(ex, st, a, c, m):
@@ -1371,6 +1413,7 @@ def m_iter_filter(ex, st, a, c, m):
 
 
 RAW_MODELS[:0] = [
+    (r'^rust_decimal::Decimal::round_dp_with_strategy$', m_dec_round_dp_strategy),
     (r'^rust_decimal::Decimal::round$', m_dec_round_default), (r'^rust_decimal::Decimal::round_dp$', m_dec_round_dp),
     (r'^rust_decimal::Decimal::trunc$', m_dec_trunc), (r'^rust_decimal::Decimal::floor$', m_dec_floor), (r'^rust_decimal::Decimal::ceil$', m_dec_ceil),
     (r'^rust_decimal::arithmetic_impls::<impl rust_decimal::Decimal>::checked_add$', m_dec_add),
